@@ -1216,3 +1216,37 @@ def rule_kindmissing(ctx) -> RuleResult:
         res.notes.append("groupby_scan has no identity shortcut on dtype.kind: rule not applicable")
         res.min_instances = 0
     return res
+
+
+# ---------------------------------------------------------------------------------------------
+# R-SCANACC (C10, C20): the two halves of a chunked scan accumulate in the same dtype.
+# groupby_scan decides the accumulator dtype once (agg.dtype: default-integer promotion for cumsum).  The in-block scan (chunk_scan) is given
+# that dtype; the pre-op of the parallel-prefix tree (grouped_reduce), which produces the per-group totals carried into later blocks, must
+# use it too.  With the block's own dtype the carried int8 totals wrap while the eager scan does not: chunked != eager.
+def rule_scanacc(ctx) -> RuleResult:
+    res = RuleResult("R-SCANACC", "the carried block totals of a chunked scan accumulate in the scan's dtype", min_instances=2)
+    from .codes import _local_closure
+    for q in ("core.chunk_scan", "core.grouped_reduce"):
+        f = ctx.prog.func(q)
+        bp = [p for p in f.params if p == "agg"] or sorted(blueprint_vars_of(f))
+        calls = [c for c in calls_in(f.node) if norm(c.func) in ("generic_aggregate", "chunk_reduce") and kwarg(c, "dtype") is not None]
+        if not calls:
+            raise AnalysisError(f"{q}: no accumulating call (generic_aggregate / chunk_reduce with dtype=) found (anchor)")
+        for c in calls:
+            d = kwarg(c, "dtype")
+            clo = _local_closure(f, d)
+            txt = " ".join(norm(e) for e in clo)
+            from_scan = any(f"{b}.dtype" in txt for b in bp) or ("dtype" in f.params and any(isinstance(x, ast.Name) and x.id == "dtype" for e in clo for x in ast.walk(e)))
+            from_block = ".array.dtype" in txt or "inp.dtype" in txt
+            res.inst(f"{q}: {norm(c.func)}(..., dtype={norm(d)}): the scan's dtype: {from_scan}; the block's own dtype: {from_block}", f"{q}|{norm(c.func)}")
+            if from_block and not from_scan:
+                res.report(f"{q}|accumulates-in-block-dtype", f.where(c), q,
+                           f"'{norm(c.func)}(…, dtype={norm(d)})' accumulates in the dtype of the block, not in the scan's dtype ({bp[0] if bp else 'agg'}.dtype, "
+                           "default-integer promoted for cumsum): the per-group totals carried into later blocks wrap for int8/uint8/int16 input "
+                           "(chunked nancumsum of [100]*6 int8 in chunks of 2 gives [100, 200, 44, …], eager [100, 200, 300, …])")
+    return res
+
+
+def blueprint_vars_of(f):
+    from ..astutil import blueprint_vars
+    return blueprint_vars(f)
